@@ -343,7 +343,12 @@ def _write_stats_file(path, ds, tdata, groups, stats, col_names=None):
         f.create_dataset('col_names', data=json.dumps(col_names or ds['genes']).encode('utf-8'))
         f.create_dataset('metadata', data=json.dumps({'made_by': 'bounded.c09'}).encode('utf-8'))
         for k in STAT_KEYS:
-            f.create_dataset(k, data=stats[k])
+            a = np.asarray(stats[k])
+            if a.ndim == 2 and a.shape[0] > 0 and a.shape[1] > 0:
+                # the stage's own layout: row-chunked by a tenth of the clusters
+                f.create_dataset(k, data=a, chunks=(max(1, a.shape[0] // 10), a.shape[1]))
+            else:
+                f.create_dataset(k, data=a)
     return tree
 
 
